@@ -81,6 +81,7 @@ Theorem C19_source_facts :
   gen_add_updates_routes_then_allow_list = true /\
   gen_remove_updates_routes_then_allow_list = true /\
   gen_add_allowed_route_skips_present_network = true /\
+  gen_allow_list_updates_are_one_write_lock_region = true /\
   gen_is_allowed_iff_some_route_contains = true /\
   gen_permission_check_precedes_the_only_dial = true /\
   gen_name_check_only_for_non_literals = true /\
